@@ -516,6 +516,9 @@ def _census(ctx, model):
                    "Python sets __hash__ to None, instances are unhashable and "
                    "cannot be dict/set keys, cache keys or evaluated by the "
                    "memoizing evaluator")
+        if not n.decorated and "__eq__" in own and "__hash__" in own and \
+                model.is_subclass(c, nt.expression):
+            _own_eq_hash_agree(ctx, n, c)
         if n.decorated:
             bad = sorted(own & {"__eq__", "__hash__", "__ne__"})
             ctx.ob(f"S/census/{n.name}/no-eq-hash-override", not bad, c.loc(),
@@ -602,6 +605,78 @@ def _census(ctx, model):
                        f"normalises its own field '{name}'" if ok else
                        f"{n.name}.__post_init__ writes '{name}', which is not one "
                        f"of its declared fields {n.field_names}")
+
+
+def _own_eq_hash_agree(ctx, n, c):
+    """a node class with hand-written __eq__ and __hash__: what the hash mixes
+    in, equality must require -- every attribute hashed is compared, and when
+    the hash depends on the class, two objects of different classes (a
+    subclass instance and a base instance) are unequal"""
+    from ..summary import facts_of
+    eq, hs = c.members["__eq__"], c.members["__hash__"]
+    if eq.kind != "func" or hs.kind != "func" or len(eq.node.args.args) != 2:
+        raise AnalysisError(f"{n.name}: __eq__/__hash__ not plain methods")
+    S = ("param", eq.node.args.args[0].arg)
+    O = ("param", eq.node.args.args[1].arg)
+    HS = ("param", hs.node.args.args[0].arg)
+    hashed = set()
+    class_in_hash = False
+    for ps in summarize(hs.node, plain=True):
+        if ps.term != "return":
+            continue
+
+        def note(t):
+            nonlocal class_in_hash
+            if t[0] == "attr" and t[1] == HS:
+                hashed.add(t[2])
+            if t == ("typeof", HS):
+                class_in_hash = True
+            return False
+        contains(ps.retval, note)
+    bad_class = []
+    bad_attrs = []
+    n_true = 0
+    for ps in summarize(eq.node, plain=True):
+        if ps.term != "return" or ps.retval == ("const", False):
+            continue
+        facts = [f for _, pol0, v0 in ps.conds if isinstance(v0, tuple)
+                 for f in facts_of(v0, pol0)]
+        facts += list(facts_of(ps.retval, True)) if isinstance(
+            ps.retval, tuple) else []
+        # paths on which `other` is not an instance of the class at all (a
+        # plain number converted for the comparison) are not about two nodes
+        if any(v[0] == "call" and v[1] == "isinstance" and v[2][0] == O
+               and not pol for v, pol in facts):
+            continue
+        n_true += 1
+        same_class = any(
+            v[0] == "compare" and len(v[1]) == 1 and
+            {v[2], v[3][0]} == {("typeof", O), ("typeof", S)} and
+            ((v[1][0] == "Is" and pol) or (v[1][0] == "IsNot" and not pol))
+            for v, pol in facts)
+        if class_in_hash and not same_class:
+            bad_class.append(ps)
+        compared = {v[2][2] for v, pol in facts
+                    if pol and v[0] == "compare" and v[1] == ("Eq",)
+                    and v[2][0] == "attr" and v[2][1] == S
+                    and v[3][0] == ("attr", O, v[2][2])}
+        if not hashed <= compared:
+            bad_attrs.append(sorted(hashed - compared))
+    if n_true == 0:
+        raise AnalysisError(f"{n.name}.__eq__: no path that can return True")
+    ctx.ob(f"S/legacy/{n.name}/eq-requires-hashed-class", not bad_class, c.loc(),
+           "the hash depends on the class and equality requires the same class"
+           if class_in_hash and not bad_class else
+           ("the hash does not depend on the class" if not class_in_hash else
+            f"{n.name}.__hash__ mixes in type(self) but __eq__ accepts any "
+            f"instance of {n.name}: an instance of a subclass compares equal "
+            "to a base instance with the same fields although their hashes "
+            "differ (and the two are not of the same node class)"))
+    ctx.ob(f"S/legacy/{n.name}/eq-compares-hashed-attributes", not bad_attrs,
+           c.loc(),
+           f"every hashed attribute {sorted(hashed)} is compared" if not bad_attrs
+           else f"{n.name}.__hash__ uses {bad_attrs[0]} which __eq__ does not "
+           "compare: equal objects can have different hashes")
 
 
 def _always_raises(mem, names=None) -> bool:
